@@ -899,3 +899,82 @@ theorem remerge_specEq (st : Store) (hg : Good st) (w : Version)
     obtain ⟨r0, hr0⟩ := List.exists_mem_of_ne_nil _ hne
     exact (key r0 hr0).1
   · intro r hr; exact (key r hr).2
+
+/-! ### merging a list of versions in one call -/
+
+theorem mergeFrames_congr {a b : List Store} (h : a.flatten = b.flatten) : mergeFrames a = mergeFrames b := by
+  unfold mergeFrames; rw [h]
+
+def frames (b : List Version) : List Store := b.map fun v => Bi v.ts v.stamp
+
+theorem frames_flatten (b : List Version) : (frames b).flatten = logRows b := by
+  simp [frames, logRows, List.flatMap_def]
+
+/-- the invariant of a history that may not have started yet -/
+def BInv (st : Option Store) (log0 : List Version) : Prop :=
+  match st with
+  | Option.none => log0 = []
+  | some s => Inv s (logRows log0)
+
+theorem inv_nil : Inv [] [] :=
+  ⟨fun d => by simp [group, SortedLt, NanFirst], SpecEq.refl _, fun _ h => h⟩
+
+theorem binv_step (st : Option Store) (log0 b : List Version) (h : BInv st log0) (hwf : ∀ v ∈ b, v.ts.Sorted)
+    (hs : SortedLe (logRows (log0 ++ b))) : BInv (biMergeL st (frames b)) (log0 ++ b) := by
+  rw [logRows_append] at hs
+  cases st with
+  | none =>
+    have h0 : log0 = [] := h
+    subst h0
+    match b, hwf, hs with
+    | [], _, _ => exact rfl
+    | [v], hwf, _ =>
+      show Inv (Bi v.ts v.stamp) (logRows ([] ++ [v]))
+      rw [List.nil_append, logRows_single]
+      exact ⟨good_Bi _ _ (hwf v (by simp)), SpecEq.refl _, fun _ h => h⟩
+    | v1 :: v2 :: rest, _, hs =>
+      show Inv (mergeFrames (frames (v1 :: v2 :: rest))) (logRows ([] ++ v1 :: v2 :: rest))
+      have e : mergeFrames (frames (v1 :: v2 :: rest)) = mergeFrames [[], logRows (v1 :: v2 :: rest)] :=
+        mergeFrames_congr (by rw [frames_flatten]; simp)
+      rw [e, logRows_append]
+      exact inv_merge (by simpa [logRows] using inv_nil) hs
+  | some s =>
+    have hi : Inv s (logRows log0) := h
+    match b, hs with
+    | [], _ => simpa [BInv, biMergeL, frames] using hi
+    | v :: rest, hs =>
+      show Inv (mergeFrames (s :: frames (v :: rest))) (logRows (log0 ++ v :: rest))
+      have e : mergeFrames (s :: frames (v :: rest)) = mergeFrames [s, logRows (v :: rest)] :=
+        mergeFrames_congr (by rw [List.flatten_cons, frames_flatten]; simp)
+      rw [e, logRows_append]
+      exact inv_merge hi hs
+
+theorem historyL_eq (batches : List (List Version)) :
+    historyL batches = batches.foldl (fun st b => biMergeL st (frames b)) Option.none := rfl
+
+theorem binv_foldl (rest : List (List Version)) : ∀ (st : Option Store) (log0 : List Version), BInv st log0 →
+    (∀ b ∈ rest, ∀ v ∈ b, v.ts.Sorted) → SortedLe (logRows (log0 ++ rest.flatten)) →
+    BInv (rest.foldl (fun st b => biMergeL st (frames b)) st) (log0 ++ rest.flatten) := by
+  induction rest with
+  | nil => intro st log0 h _ _; simpa using h
+  | cons b rest ih =>
+    intro st log0 h hwf hs
+    have e : log0 ++ (b :: rest).flatten = (log0 ++ b) ++ rest.flatten := by simp
+    rw [e] at hs ⊢
+    have hs1 : SortedLe (logRows (log0 ++ b)) := by
+      rw [logRows_append] at hs; exact (List.pairwise_append.mp hs).1
+    exact ih _ _ (binv_step st log0 b h (hwf b (by simp)) hs1) (fun b' hb' => hwf b' (by simp [hb'])) hs
+
+/-- the invariant after any stamp-ordered history of batches -/
+theorem historyL_inv (batches : List (List Version)) (hne : batches.flatten ≠ [])
+    (hwf : ∀ v ∈ batches.flatten, v.ts.Sorted)
+    (hs : batches.flatten.Pairwise (fun a b => a.stamp ≤ b.stamp)) :
+    ∃ st, historyL batches = some st ∧ Inv st (logRows batches.flatten) := by
+  have := binv_foldl batches Option.none [] rfl
+    (fun b hb v hv => hwf v (List.mem_flatten.mpr ⟨b, hb, hv⟩)) (by simpa using logRows_sorted _ hs)
+  rw [← historyL_eq, List.nil_append] at this
+  cases hh : historyL batches with
+  | none => rw [hh] at this; exact absurd this hne
+  | some st => rw [hh] at this; exact ⟨st, rfl, this⟩
+
+end Pyg.Bitemp
